@@ -102,6 +102,11 @@ func init() {
 			}
 			c.DFSBoth(sc.name(), explore.Bounds{Preempt: pb, Dev: 1}, 1)
 		}
+		for _, mode := range []string{"sl", "sj", "ls", "io"} {
+			for _, v := range []string{"reentrant", "blocked"} {
+				c.DFS("c12/nhandlers-self/"+mode+"/"+v, explore.Bounds{Preempt: c.Pick(1, 2), Dev: 0, POR: true, MaxExec: c.Pick(1500, 50000)})
+			}
+		}
 	})
 }
 
@@ -333,6 +338,86 @@ func c12Linearizable(reg string, evs []*c12Event) bool {
 		return false
 	}
 	return rec(0, map[string]string{"a": "h1"}, []string{"a"})
+}
+
+// c12Handlers: notification handlers that touch the handler table themselves, or that are still
+// running while another goroutine registers one ("may be registered while a server is serving").
+func c12Handlers(prefix []int, mode, variant string) explore.Outcome {
+	var viol []explore.Violation
+	obs := &hx.Log{}
+	k := func(s string) string { return s + ":" + mode + ":" + variant }
+	res := vsched.Run(cfgFor(prefix), func() {
+		vsched.SetBranching(false)
+		r := NewRig(mode)
+		log := &hx.Log{}
+		gate := &hx.Flag{}
+		reg := func(name string, h func(ctx context.Context, n *mcp.JSONRPCNotification) error) {
+			switch {
+			case r.Server != nil:
+				r.Server.RegisterNotificationHandler("notifications/"+name, h)
+			case r.SSE != nil:
+				r.SSE.RegisterNotificationHandler("notifications/"+name, h)
+			default:
+				r.Stdio.RegisterNotificationHandler("notifications/"+name, h)
+			}
+		}
+		hb := func(ctx context.Context, n *mcp.JSONRPCNotification) error { log.Add("b"); return nil }
+		reg("a", func(ctx context.Context, n *mcp.JSONRPCNotification) error {
+			log.Add("a-start")
+			switch variant {
+			case "reentrant":
+				reg("b", hb) // a handler may extend the table it was found in
+			case "blocked":
+				gate.Wait("handler a waits for release")
+			}
+			log.Add("a-end")
+			return nil
+		})
+		r.Start()
+		rp := NewRawPeer(r)
+		if err := rp.Handshake(); err != nil {
+			viol = append(viol, V("setup-handshake-fails", "setting the scenario up with well-behaved peers fails: %v", err))
+			return
+		}
+		vsched.Quiesce()
+		vsched.SetBranching(true)
+		registered := &hx.Flag{}
+		vsched.Go("notify-a", func() { rp.Notify(`{"jsonrpc":"2.0","method":"notifications/a"}`) })
+		if variant == "blocked" {
+			vsched.Go("register-b", func() { reg("b", hb); registered.Set() })
+		}
+		vsched.Quiesce()
+		if variant == "blocked" {
+			if !registered.Get() {
+				viol = append(viol, V(k("register-blocked-by-running-handler"), "RegisterNotificationHandler did not return while a handler of another method is still running; blocked: %v", vsched.LiveThreads()))
+			}
+			gate.Set()
+			vsched.Quiesce()
+		}
+		items := strings.Join(log.Items(), ",")
+		if !strings.Contains(items, "a-end") {
+			viol = append(viol, V(k("handler-never-finishes"), "the handler of notifications/a did not finish (log %q); blocked: %v", items, vsched.LiveThreads()))
+			return
+		}
+		vsched.SetBranching(false)
+		rp.Notify(`{"jsonrpc":"2.0","method":"notifications/b"}`)
+		vsched.Quiesce()
+		if !strings.HasSuffix(strings.Join(log.Items(), ","), ",b") {
+			viol = append(viol, V(k("registered-handler-not-called"), "the handler registered for notifications/b was not called (log %q)", strings.Join(log.Items(), ",")))
+		}
+		obs.Add("%s", strings.Join(log.Items(), ","))
+	})
+	return finishOutcome(res, obs, viol, true)
+}
+
+func init() {
+	for _, mode := range []string{"sl", "sj", "ls", "io"} {
+		for _, v := range []string{"reentrant", "blocked"} {
+			mode, v := mode, v
+			RegisterScenario(&Scenario{Name: "c12/nhandlers-self/" + mode + "/" + v, Run: func(p []int, m []vsched.ChoicePoint) explore.Outcome { return c12Handlers(p, mode, v) },
+				Doc: "server mode " + mode + ": a notification handler that " + map[string]string{"reentrant": "registers another handler itself", "blocked": "is still running while another goroutine registers a handler"}[v]})
+		}
+	}
 }
 
 func c12Run(prefix []int, sc c12Scn) explore.Outcome {
